@@ -7,7 +7,8 @@ coq/theories/Whole/Main.v [tempren_main] evaluated by vm_compute on the same tre
 
 generates n cases: a tree (files, directories, a few hidden names, now and then a dangling symbolic link or
 one to a file; 1-2 input directories), a template over the core library (Name/Base/Ext/Dir/Upper/Lower/Count
-with arguments, literals, contexts, pipes; now and then one that does not compile), options (mode, -r, -ih,
+and Trim/Pad/Strip/Collapse/SplitCase with arguments, literals, contexts, pipes; now and then one that does not
+compile or whose argument has an unexpected type), options (mode, -r, -ih,
 stop/ignore, dry-run; `-s %Name()` always in name and path mode, so the processing order is determined;
 directory mode has no sorter option - its order is the listing order, which the harness writes into the tree
 it hands to the model), and compares exit status, final tree, traced calls and report lines.
@@ -110,6 +111,81 @@ def gen_count(rng):
     return "%Count(" + ",".join(args) + ")"
 
 
+def quote(s, rng):
+    """a str value as a template argument (the documented escapes)"""
+    q = rng.choice("'\"") if rng.random() < 0.3 else "'"
+    return q + s.replace("\\", "\\\\").replace(q, "\\" + q) + q
+
+
+SETS = [" ", " ", "-", "_-", " -_", ".", "ab", "a-c", "^a", "x", "", "0"]
+
+
+def gen_flags(rng, both_ok=True):
+    l, r = rng.choice([(True, False), (False, True), (True, False), (False, True), (True, True), (False, False)])
+    out = []
+    if l:
+        out.append(rng.choice(["left", "left", "left=True", "left=1"]))
+    elif rng.random() < 0.1:
+        out.append(rng.choice(["left=False", "left=0", "left=''"]))
+    if r:
+        out.append(rng.choice(["right", "right", "right=True", "right='y'"]))
+    elif rng.random() < 0.1:
+        out.append("right=False")
+    return out
+
+
+def gen_text_args(rng, tag):
+    """argument text of a Text tag with arguments (ASCII only); now and then a value of an unexpected type"""
+    odd = rng.random() < 0.06
+    if tag == "Trim":
+        w = rng.choice([1, 2, 3, 5, 8, 100, -1, -2, -5, -100, 0])
+        ws = rng.choice(["'2'", "True", "False"]) if odd else str(w)
+        return ", ".join([ws if rng.random() < 0.5 else "width=" + ws] + gen_flags(rng))
+    if tag == "Pad":
+        w = rng.choice([1, 2, 3, 4, 5, 6, 7, 10, 11, 20, 0, -3])
+        ws = rng.choice(["'4'", "True"]) if odd else str(w)
+        ch = rng.choice([" ", "0", "*", "_", "-", ".", "x", "ab", ""])
+        parts = [ws]
+        if not (ch == " " and rng.random() < 0.5):
+            cs = rng.choice(["5", "True"]) if (odd and rng.random() < 0.5) else quote(ch, rng)
+            parts.append(cs if rng.random() < 0.3 else "character=" + cs)
+            if not parts[-1].startswith("character=") and rng.random() < 0.3:
+                return ", ".join(parts + rng.choice([["True"], ["True", "True"], ["False", "True"], ["0", "1"]]))
+        return ", ".join(parts + gen_flags(rng))
+    if tag == "Strip":
+        st = rng.choice(SETS)
+        parts = []
+        if not (st == " " and rng.random() < 0.5):
+            ss = rng.choice(["5", "True"]) if odd else quote(st, rng)
+            parts.append(ss if rng.random() < 0.6 else "strip_characters=" + ss)
+        fl = gen_flags(rng)
+        if parts and parts[0].startswith("strip_characters=") and rng.random() < 0.5:
+            return ", ".join(fl + parts) if all("=" in f for f in fl) else ", ".join(parts + fl)
+        return ", ".join(parts + fl)
+    if tag == "Collapse":
+        st = rng.choice(SETS)
+        if st == " " and rng.random() < 0.5:
+            return ""
+        ss = rng.choice(["5", "False"]) if odd else quote(st, rng)
+        return ss if rng.random() < 0.6 else "characters=" + ss
+    sep = rng.choice([" ", "_", "-", ".", "ab", "", "x"])
+    if sep == " " and rng.random() < 0.5:
+        return ""
+    ss = rng.choice(["5", "0", "True", "False"]) if odd else quote(sep, rng)
+    return ss if rng.random() < 0.6 else "separator=" + ss
+
+
+def gen_text_tag(rng, depth):
+    tag = rng.choice(["Trim", "Pad", "Strip", "Collapse", "SplitCase"])
+    q = rng.choice(["", "", "Text."])
+    call = "%" + q + tag + "(" + gen_text_args(rng, tag) + ")"
+    if depth >= 2:
+        return call + "{" + rng.choice(["%Name()", "%Base()", " %Name() ", "a  b%Base()", "--%Base()__"]) + "}"
+    if rng.random() < 0.3:                               # pipe spelling
+        return gen_seq(rng, depth + 1, 2) + "|" + call
+    return call + "{" + gen_seq(rng, depth + 1, 3) + "}"
+
+
 def gen_piece(rng, depth):
     r = rng.random()
     if r < 0.22:
@@ -122,8 +198,10 @@ def gen_piece(rng, depth):
         return "%" + q + tag + "()"
     if r < 0.70:
         return "%Dir()"
-    if r < 0.85:
+    if r < 0.82:
         return gen_count(rng)
+    if r >= 0.91:
+        return gen_text_tag(rng, depth)
     tag = rng.choice(["Upper", "Lower"])
     q = rng.choice(["", "", "Text."])
     if depth >= 2:
@@ -139,9 +217,19 @@ def gen_seq(rng, depth, maxlen):
 
 FIXED = ["%Name()", "%Base()%Ext()", "%Dir()/%Name()", "%Count()", "%Upper(){%Base()}%Ext()",
          "%Count(width=3)%Ext()", "%Dir()/%Count(start=1)_%Name()", "new/%Name()", "%Lower(){%Name()}",
-         "%Name()|%Upper()", "%Count(step=-1,start=1)%Ext()", "%Base()%Count(common=True)%Ext()"]
+         "%Name()|%Upper()", "%Count(step=-1,start=1)%Ext()", "%Base()%Count(common=True)%Ext()",
+         "%Trim(3,right){%Base()}%Ext()", "%Trim(-1,left){%Base()}%Ext()", "%Pad(8,'0',left){%Base()}%Ext()",
+         "%Pad(9,'*',left,right){%Base()}%Ext()", "%Strip('ab',left){%Base()}%Ext()", "%Strip(){ %Name() }",
+         "%Collapse(){a  %Name()   b}", "%Collapse('_-'){%Base()__--x}%Ext()", "%SplitCase(){%Base()}%Ext()",
+         "%SplitCase('_'){%Base()}|%Lower()", "%Base()|%Trim(2,right)|%Pad(5,'x',right)|%Upper()",
+         "%Trim('2',left){%Name()}", "%Strip(5){%Name()}", "%SplitCase(7){%Name()}"]
 BROKEN = ["%Nme()", "%Upper()", "%Name(", "%Name()}", "%Count(1,2,3,4,5)", "%Count(step=0)", "%Count(start=-1)",
-          "%Count(){x}", "%Text.Name()", "%Count(bogus=1)", "%Upper{%Nme()}", "%Count(width=-2)"]
+          "%Count(){x}", "%Text.Name()", "%Count(bogus=1)", "%Upper{%Nme()}", "%Count(width=-2)",
+          "%Trim(0,left){%Name()}", "%Trim(2){%Name()}", "%Trim(2,left,right){%Name()}", "%Trim(2,left)", "%Trim(left){x}",
+          "%Pad(3){%Name()}", "%Pad(0,left){%Name()}", "%Pad(3,'ab',left){%Name()}", "%Pad(3,'',right){%Name()}",
+          "%Pad(3,5,left){%Name()}", "%Pad('3',left){%Name()}", "%Collapse(''){%Name()}", "%Collapse(5){%Name()}",
+          "%SplitCase(''){%Name()}", "%SplitCase(0){%Name()}", "%Strip(1,2,3,4){%Name()}", "%Core.Trim(1,left){x}",
+          "%Strip()", "%Collapse(chars='x'){%Name()}"]
 
 
 def gen_template(rng, mode):
